@@ -1821,7 +1821,8 @@ def c02(tier, rng, rep, only=None):
         if "spelling" in d.tags:
             g.add_ops(d, [("try_new", val_sexp(v)) for v in probes(d)], spec=True)
         elif "presence" in d.tags:
-            g.add_ops(d, [("try_new", val_sexp(v)) for _, v in d.witnesses], spec=True)
+            g.add_ops(d, [("try_new", val_sexp(v)) for _, v in d.witnesses] +
+                      [("try_new", val_sexp(v)) for v, _ in getattr(d, "order_witnesses", [])], spec=True)
         elif "sanorder" in d.tags:
             g.add_ops(d, [("new", val_sexp(("s", s_))) for s_, _ in d.expected], spec=True)
         elif "layout" in d.tags:
@@ -1877,6 +1878,17 @@ def c02(tier, rng, rep, only=None):
                 if not c.impl.startswith("err"):
                     rep.violation("rule `%s` written in %s next to other rules is not enforced: try_new(%s) gives %s"
                                   % (rname, d.id, c.arg, c.impl), case_payload(c, g, {"written_rule": rname}))
+                elif c.impl != c.model:
+                    rep.violation("model and implementation differ on %s try_new(%s): %s vs %s" % (d.id, c.arg, c.impl, c.model),
+                                  case_payload(c, g), no_input=True)
+            for c, (v_, first) in zip(cs[len(d.witnesses):], getattr(d, "order_witnesses", [])):
+                n += 1
+                n_pres += 1
+                if c.impl is None:
+                    continue
+                if c.impl != "err " + runner.VARIANTS[first]:
+                    rep.violation("rules of %s are not checked in the written order: try_new(%s) gives %s, the first written rule it violates is `%s`"
+                                  % (d.id, c.arg, c.impl, first), case_payload(c, g, {"first_written_rule_violated": first}))
                 elif c.impl != c.model:
                     rep.violation("model and implementation differ on %s try_new(%s): %s vs %s" % (d.id, c.arg, c.impl, c.model),
                                   case_payload(c, g), no_input=True)
